@@ -24,7 +24,57 @@ void onTransfer(int mode, char*, std::streamsize count) {
 	}
 }
 
+// @synth:<kind>:<version>: a file built through the API, for geometry kinds no sample file contains.
+//   strips : a NiTriStrips shape (NiTriStripsData with three strips, one of them a degenerate 2-point strip) - OB / FO3 / SK
+//   shape  : CreateShapeFromData (NiTriShape or BSTriShape, by version) with normals and texture coordinates
+std::string synth_file(const std::string& spec) {
+	auto p1 = spec.find(':');
+	std::string kind = spec.substr(0, p1), ver = p1 == std::string::npos ? "" : spec.substr(p1 + 1);
+	NiVersion v = ver == "ob" ? NiVersion::getOB() : ver == "fo3" ? NiVersion::getFO3() : ver == "sk" ? NiVersion::getSK()
+				  : ver == "fo4" ? NiVersion::getFO4() : ver == "fo76" ? NiVersion::getFO76() : NiVersion::getSSE();
+	NifFile nif;
+	nif.Create(v);
+	std::vector<Vector3> verts, norms;
+	std::vector<Vector2> uvs;
+	for (int i = 0; i < 8; ++i) {
+		verts.emplace_back(static_cast<float>(i % 4), static_cast<float>(i / 4), 0.25f * static_cast<float>(i));
+		norms.emplace_back(0.0f, 0.0f, 1.0f);
+		uvs.emplace_back(0.125f * static_cast<float>(i), 0.5f);
+	}
+	if (kind == "strips") {
+		auto shp = std::make_unique<NiTriStrips>();
+		shp->name.get() = "Strips";
+		auto data = std::make_unique<NiTriStripsData>();
+		data->Create(nif.GetHeader().GetVersion(), &verts, nullptr, &uvs, &norms);
+		std::vector<std::vector<uint16_t>> strips = {{0, 1, 4, 5, 2}, {2, 3}, {4, 5, 6, 7}};
+		for (auto& pts : strips) {
+			uint16_t len = static_cast<uint16_t>(pts.size());
+			data->stripsInfo.stripLengths.push_back(len);
+			data->stripsInfo.points.push_back(pts);
+		}
+		data->stripsInfo.hasPoints = true;
+		data->numTriangles = 5;
+		shp->SetGeomData(data.get());
+		int dataID = nif.GetHeader().AddBlock(std::move(data));
+		shp->DataRef()->index = dataID;
+		int id = nif.GetHeader().AddBlock(std::move(shp));
+		nif.GetRootNode()->childRefs.AddBlockRef(id);
+	}
+	else {
+		std::vector<Triangle> tris = {{0, 1, 4}, {1, 5, 4}, {2, 3, 6}, {3, 7, 6}};
+		nif.CreateShapeFromData("Shape", &verts, &tris, &uvs, &norms);
+	}
+	NifSaveOptions raw;
+	raw.optimize = false;
+	raw.sortBlocks = false;
+	std::stringstream ss;
+	nif.Save(ss, raw);
+	return ss.str();
+}
+
 std::string read_file(const std::string& name) {
+	if (name.rfind("@synth:", 0) == 0)
+		return synth_file(name.substr(7));
 	const char* sdir = std::getenv("VERIF_SAMPLES");
 	std::ifstream f(std::string(sdir ? sdir : "/repo/tests/input") + "/" + name, std::ios::binary);
 	std::stringstream ss;
